@@ -3,6 +3,7 @@
 import json, glob, os
 rows = []
 for d in sorted(glob.glob('/verif/seeded/*')):
+    if not os.path.exists(os.path.join(d, 'meta.json')): continue
     m = json.load(open(os.path.join(d, 'meta.json')))
     det = m.get('detection', {})
     caught = [f"{p}{'' if 'no-failing-input-found' not in (r.get('violation') or '') else '°'}" for p, r in det.items() if r.get('violation')]
